@@ -24,3 +24,4 @@ import PvModel.Props.C17Enforce
 #print axioms Pv.C17_opsOK_of_allBound
 #print axioms Pv.C17_hidden_onceo_model
 #print axioms Pv.C17_enforce_assembly
+#print axioms Pv.C17_enforce_exactly_once
